@@ -165,6 +165,20 @@ pub fn clause_of(m: &str) -> String {
 
 fn main_check(ctx: &Ctx) -> Outcome {
     let mut out = Outcome::default();
+    // the functions under test must not consult the environment: a few representative inputs under a cleared and two
+    // hostile settings of the colour-related variables (before any worker thread exists)
+    fn env_digest() -> Vec<String> {
+        ["plain", "a\x1b[1;31mb\x1b[0m c", "\x1b]0;t\x07x\x1bP1q#\x1b\\y", "\u{e9}\x1b[mz"].iter().map(|t| { let mut s = anstream::StripStream::new(Vec::new()); let _ = s.write_all(t.as_bytes()); let mut a = anstream::AutoStream::never(Vec::new()); let _ = a.write_all(t.as_bytes()); format!("{}|{:?}|{:?}|{:?}", strip_str(t), strip_bytes(t.as_bytes()).into_vec(), s.into_inner(), a.into_inner()) }).collect::<Vec<String>>()
+    }
+    if let Err(m) = vexplore::util::env_independence(env_digest) {
+        out.findings.push(Finding {
+            system: "strip adapters".into(),
+            clause: "environment-dependence".into(),
+            case: vec!["representative inputs".into()],
+            message: m.chars().take(900).collect(),
+            replay: serde_json::json!({"kind":"env"}),
+        });
+    }
     let quick = ctx.quick();
     // (0) the lock()ed strip streams over the real stdout/stderr (single-threaded, first): what was written before
     //     and after lock() together must come out as the stripped form, for every cut position
@@ -458,6 +472,7 @@ fn replay(v: &serde_json::Value) -> Result<(), String> {
             Some((sys, m)) => Err(format!("{sys}: {}", m.chars().take(600).collect::<String>())),
             None => Ok(()),
         },
+        "env" => Err("environment-dependence findings are replayed by re-running the check".into()),
         k => Err(format!("unknown replay kind {k}")),
     }
 }
